@@ -23,7 +23,7 @@ use std::io::Write;
 
 use crate::parquet_thrift::{
     ElementType, FieldType, ReadThrift, ThriftCompactInputProtocol, ThriftCompactOutputProtocol,
-    WriteThrift, WriteThriftField, read_thrift_vec, validate_list_type,
+    WriteThrift, WriteThriftField, list_prealloc, read_thrift_vec, validate_list_type,
 };
 use crate::{
     errors::{ParquetError, Result},
@@ -91,7 +91,7 @@ impl OffsetIndexMetaData {
         // we have to do this manually because we want to use the fast PageLocation decoder
         let list_ident = prot.read_list_begin()?;
         validate_list_type(ElementType::Struct, &list_ident)?;
-        let mut page_locations = Vec::with_capacity(list_ident.size as usize);
+        let mut page_locations = Vec::with_capacity(list_prealloc(&list_ident));
         for _ in 0..list_ident.size {
             page_locations.push(read_page_location(prot)?);
         }
